@@ -1194,6 +1194,13 @@ theorem trimspace_spec (l m r s : List Char)
   ⟨trimBoth_middle _ l m r hl hr hm1 hm2, trimBoth_decomp _ s⟩
 
 open D14b in
+/-- … and conversely the result of `trimspace` (of `trim`: read "in the cutset") neither starts nor
+ends with white space: with `trimspace_spec` it is THE middle part of the string. -/
+theorem trimspace_result_has_no_outer_space (s : List Char) :
+    (∀ c, (goTrimSpace s).head? = some c → goIsSpace c = false) ∧
+    (∀ c, (goTrimSpace s).getLast? = some c → goIsSpace c = false) := trimBoth_ends goIsSpace s
+
+open D14b in
 /-- `trim(str, cutset)` likewise with "occurs in the cutset" for white space (an empty
 string or cutset returns the string, as in Go). -/
 theorem trim_cutset_spec (cut l m r : List Char) (hne : (l ++ m ++ r) ≠ []) (hcut : cut ≠ [])
